@@ -158,7 +158,7 @@ def ob_pmsi(label: int, x: int, y: int) -> bool:
            'leaf_info_required': P.get('leaf', 0)}
     attr = {22: val}
     if P.get('evpn'):
-        attr[16] = [[0x030c, 8]]
+        attr[16] = [[0x030c, P.get('encap', 8)]]
         attr[14] = {'afi_safi': (25, 70), 'nexthop': '10.75.44.254',
                     'nlri': [{'type': 3, 'value': {'rd': '172.16.0.1:5904', 'eth_tag_id': 100, 'ip': '192.168.0.1'}}]}
     return _update_with(attr)
@@ -286,7 +286,12 @@ def obligations(tier, seed):
     out.append(ob('C08/tunnel-encaps/mpls/alone', 'ob_tunnel', {'kind': 'mpls', 'with_srte': False}, covers=['walked']))
     for tt in (6, 0, 1, 3):
         for evpn in (False, True):
-            out.append(ob('C08/pmsi/tt=%d/evpn=%s' % (tt, evpn), 'ob_pmsi', {'tt': tt, 'evpn': evpn}))
+            out.append(ob('C08/pmsi/tt=%d/evpn=%s' % (tt, evpn), 'ob_pmsi', {'tt': tt, 'evpn': evpn},
+                          covers=['walked'] if tt == 6 else []))
+    for encap in (8, 9, 1, 10):
+        # EVPN overlay: VXLAN, NVGRE, and two encapsulations for which the label stays an MPLS label
+        out.append(ob('C08/pmsi/tt=6/evpn=True/encap=%d' % encap, 'ob_pmsi', {'tt': 6, 'evpn': True, 'encap': encap},
+                      covers=['walked'] if encap in (8, 9) else []))
     def pfx(p, off):
         return {'prefix': p, 'offset': off}
     rules = [{'1': pfx('2001:db8::/32', 0)}, {'1': pfx('2001:db8:1:2::/64', 32)},
